@@ -465,3 +465,26 @@ def _xml_text_is_wellformed_chardata(args, result):
 
 contract('mapproxy.exception:xml_text', props=['C18'], verify=False, types=dict(msg='str'), returns='str',
          ensures=[_xml_text_is_wellformed_chardata], fuzz_gen=_gen_xml_text, bounded=dict(n=5000, seconds=8))
+
+
+# ---- CGI sources: what a failing start of the script may tell the client ---------------------------------------------------------------
+cls('mapproxy.client.cgi:CGIClient', fields=dict(script='opaque', working_directory='opaque', no_headers='opaque'))
+
+
+def _cgi_error_text_is_fixed(ex, st, post, exc):
+    import z3
+    from pyvc.values import VStr
+    a = list(exc.args or ())
+    ok = len(a) == 1 and isinstance(a[0], VStr) and a[0].conc() is not None
+    yield ('cgi_error_text_is_a_constant', z3.BoolVal(bool(ok)),
+           'the SourceError raised when the CGI script cannot be started has a fixed text: the path of the script (a file-system '
+           'path of the server) is not part of the message that the error documents show')
+
+
+contract('mapproxy.client.cgi:CGIClient.open', props=['C18'],
+         types=dict(url='opaque', data='none'), returns='opaque', default_callee='opaque',       # POST is refused by an assert
+         opaque_spec={'Popen': {'raises': ['OSError']}, 'communicate': {'returns': 'tuple[opaque,opaque]'}, 'wait': {'returns': 'int'},
+                      'split_cgi_response': {'returns': 'tuple[opaque,opaque]', 'pure': True}, 'len': {'returns': 'int', 'pure': True}},
+         opaque=['split_cgi_response'],
+         raises={'SourceError': True, 'HTTPClientError': True, 'OSError': True},
+         raises_ensures={'SourceError': [_cgi_error_text_is_fixed]})
